@@ -21,6 +21,8 @@ import (
 // the library's own single verification.
 
 type c09Tx struct {
+	ex           *ed25519.ExpandedPublicKey // memo: an expanded key is an object callers keep and reuse
+	exTried      bool
 	pk, msg, sig []byte
 	opts         *ed25519.Options
 	kind         string
@@ -87,6 +89,19 @@ func c09VerifyOpts(g *Gen) *ed25519.VerifyOptions {
 		f := t.W(32)
 		return &ed25519.VerifyOptions{AllowSmallOrderA: f&1 != 0, AllowSmallOrderR: f&2 != 0, AllowNonCanonicalA: f&4 != 0, AllowNonCanonicalR: f&8 != 0, CofactorlessVerify: f&16 != 0}
 	}
+}
+
+// expanded returns the transaction's expanded key; with reuse the same object is handed
+// to many verifications and batches (under different options and on different nodes).
+func (x *c09Tx) expanded(reuse bool) (*ed25519.ExpandedPublicKey, error) {
+	if reuse && x.exTried {
+		return x.ex, nil
+	}
+	ex, err := ed25519.NewExpandedPublicKey(x.pk)
+	if reuse {
+		x.ex, x.exTried = ex, true
+	}
+	return ex, err
 }
 
 func c09Cofactorless(o *ed25519.Options) bool { return o.Verify != nil && o.Verify.CofactorlessVerify }
@@ -393,8 +408,8 @@ func runC09(e *Env, r *core.Run) {
 						pan, pmsg = Guard(func() { got = ed25519.VerifyWithOptions(x.pk, x.msg, x.sig, x.opts) })
 						r.Count(c09single)
 					case 1:
-						ex, err := ed25519.NewExpandedPublicKey(x.pk)
-						if err != nil {
+						ex, err := txs[ti].expanded(t.W(2) == 1)
+						if err != nil || ex == nil {
 							got = false // no expanded form exists; plain verification must reject too
 						} else {
 							pan, pmsg = Guard(func() { got = ed25519.VerifyExpandedWithOptions(ex, x.msg, x.sig, x.opts) })
@@ -473,7 +488,7 @@ func c09Batch(r *core.Run, e *Env, nd *c09Node, txs []c09Tx, chunk []int, decide
 				bv.AddWithOptions(x.pk, x.msg, x.sig, x.opts)
 			}
 		case 1:
-			ex, _ := ed25519.NewExpandedPublicKey(x.pk) // nil on failure: the batch must mark the entry invalid
+			ex, _ := txs[ti].expanded(t.W(2) == 1) // nil on failure: the batch must mark the entry invalid
 			if isDefaultOpts && t.W(2) == 0 {
 				bv.AddExpanded(ex, x.msg, x.sig)
 			} else {
